@@ -225,10 +225,9 @@ func (c *BlockCache) IsExit(hash common.Hash, height uint32) bool {
 		return false
 	}
 	for _, blocks := range c.cache {
-		if _, ok := blocks.Blocks[hash]; ok {
-			return true
-		} else {
-			return false
+		if blocks.Height == height {
+			_, ok := blocks.Blocks[hash]
+			return ok
 		}
 	}
 	return false
